@@ -504,6 +504,35 @@ fn small_scn(code: &str, r: &mut Rng) -> Scn {
 
 // ---------------- C04: one typo in a >=5-letter word ----------------
 fn p04(p: &mut ProbeReport, r: &mut Rng, budget: usize) {
+    // misspellings that happen to be function words of the language: a title word one edit away from a function word
+    // f (`cross` / `across`, `whale` / `while`), asked by typing f
+    for code in LANGS.iter().skip(1) {
+        let v = vocab(code);
+        let lang = make_lang(code);
+        let mut tried = 0;
+        for f in v.func.iter().filter(|f| f.chars().count() >= 5) {
+            if tried >= (if budget > 5000 { 200 } else { 25 }) { break; }
+            let fc: Vec<char> = f.chars().collect();
+            for kind in 0..4 {
+                let mut w = fc.clone();
+                let pos = r.below(w.len());
+                match kind { 0 => { w.remove(pos); } 1 => { w.insert(pos, *r.pick(&v.letters)); } 2 => { w[pos] = *r.pick(&v.letters); } _ => { if pos + 1 < w.len() { w.swap(pos, pos + 1); } } }
+                let ws: String = w.iter().collect();
+                let distinct: BTreeSet<char> = w.iter().cloned().collect();
+                if w == fc || w.len() < 5 || distinct.len() < 3 || v.func.contains(&ws) { continue; }
+                // premises of the property: the title word and the typed word each tokenise to themselves
+                let (tw, tq) = (tokenize_record(&ws, &lang), tokenize_query(f, &lang));
+                if tw.words.len() != 1 || wchars(&tw, 0) != w || tq.words.len() != 1 || wchars(&tq, 0) != fc { continue; }
+                tried += 1;
+                let scn = Scn { lang: code.to_string(), recs: vec![(1, format!("{} {}", ws, v.word(r)), 3)], limit: 10 };
+                if has_sentinel(&scn.recs[0].1) { continue; }
+                p.eval(&format!("{}|func-edit|{}|{}", code, ws, f), true);
+                let hits = search_results(&scn.build(), f);
+                if !hits.iter().any(|h| h.0 == 1) { p.fail(format!("title word {:?} is one edit away from the function word {:?}; typing {:?} does not find the record {:?}; hits {:?}", ws, f, f, scn.recs[0].1, hits), scn.case("c04-function-word-edit", vec![Op::Search(f.clone())])); }
+            }
+        }
+    }
+    let budget = budget + p.evaluations;
     let mut i = 0;
     while p.evaluations < budget {
         let code = LANGS[i % LANGS.len()]; i += 1;
@@ -1449,6 +1478,25 @@ fn p11(p: &mut ProbeReport, r: &mut Rng, budget: usize) {
 
 // ---------------- C12: empty query lists the top-rated records ----------------
 fn p12(p: &mut ProbeReport, r: &mut Rng, budget: usize) {
+    // the bounded selection compacts its buffer every 2·limit items: limits 9–24 (slices long enough for the partial
+    // selection algorithms of std to differ from a full sort), 2·limit+1 … 5·limit records, ratings in random order
+    for round in 0..(if budget > 5000 { 1500 } else { 150 }) {
+        let code = LANGS[round % LANGS.len()];
+        let limit = r.range(9, 24);
+        let n = r.range(2 * limit + 1, 5 * limit);
+        let mut ratings: Vec<usize> = (0..n).map(|k| 10 + 3 * k).collect();
+        r.shuffle(&mut ratings);
+        let recs: Vec<(usize, String, usize)> = ratings.iter().enumerate().map(|(k, rt)| (k + 1, format!("t{}", k % 7), *rt)).collect();
+        let scn = Scn { lang: code.to_string(), recs: recs.clone(), limit };
+        let st = scn.build();
+        for q in ["", " - "] {
+            let hits = search_results(&st, q);
+            let mut by = recs.clone(); by.sort_by(|a, b| b.2.cmp(&a.2));
+            let want: Vec<usize> = by.iter().take(limit).map(|e| e.0).collect();
+            p.eval(&format!("compact12|{}|{}|{}|{}", code, limit, n, q), true);
+            if ids(&hits) != want { p.fail(format!("{} records with pairwise distinct ratings, limit {}, query {:?}: listed {:?}, the best-rated are {:?}", n, limit, q, ids(&hits), want), scn.case("c12-compaction", vec![Op::Search(q.to_string())])); return; }
+        }
+    }
     lived_in_exhaustive(p, "C12", if budget > 5000 { 7 } else { 6 });
     lived_in_store(p, r, if budget > 5000 { 6000 } else { 600 }, "C12");
     let budget = budget + p.evaluations;
